@@ -247,6 +247,16 @@ impl<C: ConfigurationAccess> PciRoot<C> {
         // Read the upper 32 bits of 64-bit memory BARs.
         let (address_top, size_top) = if bar_orig & 0b111 == 0b100 {
             if bar_index >= 5 {
+                // A 64-bit BAR can't start in the last slot. Undo the changes made so far before
+                // reporting the error.
+                self.configuration_access.write_word(
+                    device_function,
+                    BAR0_OFFSET + 4 * bar_index,
+                    bar_orig,
+                );
+                if command_disable_decode != command_orig {
+                    self.set_command(device_function, command_orig);
+                }
                 return Err(PciError::InvalidBarType);
             }
             let bar_top_orig = self
